@@ -236,7 +236,7 @@ class TAX1099MISC_V100(Aggregate):
 
     @classmethod
     def validate_args(cls, *args, **kwargs):
-        if "STTAXWH" in kwargs and "PAYERSTATE" not in kwargs:
+        if "sttaxwh" in kwargs and "payerstate" not in kwargs:
             msg = "{}: payerstate must also be provided if sttaxwh is provided"
             raise ValueError(msg)
         super().validate_args(*args, **kwargs)
